@@ -1,7 +1,7 @@
 """Shared LEF rules (C04, C05, C11)."""
 import re
 from analysis import units, ordering as od, panics as pn
-from analysis.mir import Body, callee_name, callee_id, op_const
+from analysis.mir import Body, callee_name, callee_id, op_const, op_place
 from rules import panicrules as pr
 
 READ_ROOTS = ("data::LefLibrary::open", "read::parse_file", "read::parse_str")
@@ -106,3 +106,93 @@ def rule_indent_pairing(ctx, rid):
             ctx.ok(rid, f.short, "%d indent changes, balanced" % len(deltas))
     ctx.floor(rid, "indent_sites", n_sites, 4)
     return ok_all
+
+
+LOSSY_TEXT = re.compile(r"str::<impl str>::(trim|trim_matches|trim_start|trim_end|trim_start_matches|trim_end_matches|trim_left|trim_right|trim_left_matches|trim_right_matches|strip_prefix|strip_suffix|replace|replacen|to_lowercase|to_uppercase|to_ascii_lowercase|to_ascii_uppercase|split|rsplit|splitn|rsplitn|split_once|rsplit_once|split_whitespace|split_at|get|get_unchecked|escape_default|escape_debug|repeat)$"
+                        r"|string::String::(truncate|pop|remove|retain|drain|replace_range|insert|insert_str|split_off|clear)$|slice::<impl \[u8\]>::to_ascii_(upper|lower)case$")
+TEXT_IDENTITY = re.compile(r"String as std::convert::From<&str>>::from$|::to_string$|::to_owned$|::into$|::clone$|::as_str$|Deref>::deref$|::as_ref$|::borrow$|String::from$|::from$|Option::<.*>::(unwrap|expect|unwrap_or|unwrap_or_default)$|Try>::branch$")
+TEXT_CONSUMER = re.compile(r"from_str$|::parse$|PartialEq.*::(eq|ne)$|::(starts_with|ends_with|contains|cmp|partial_cmp|is_empty|len|chars|bytes|as_bytes|find|eq_ignore_ascii_case|is_char_boundary)$|fmt::|Argument::<.*>::new_|::fail|::fail_msg")
+
+
+def rule_text_verbatim(ctx, rid, prefix="lef21::read::"):
+    """names, strings and other text operands must reach the data model exactly as written (the writer prints them verbatim,
+    and C04 requires exact values): a transformed copy of token text may be compared or parsed, but not stored"""
+    ctx.rule(rid, "token text is stored verbatim: no trimmed / stripped / replaced / case-folded / split copy of input text flows into a stored value (such copies may only be compared or parsed)")
+    F = ctx.F
+    n_sites = 0
+    n_txt = 0
+    for f in F.fns.values():
+        if not f.id.startswith(prefix) or f.derived:
+            continue
+        b = Body(f)
+        for bi, t in b.calls():
+            nm = callee_name(t) or ""
+            if nm.endswith("LefParser::<'src>::txt") or nm.endswith("::txt"):
+                n_txt += 1
+            if not LOSSY_TEXT.search(nm):
+                continue
+            n_sites += 1
+            key = "%s/%s" % (f.short, nm.split("::")[-1])
+            # forward closure of the transformed text inside this function
+            T = {t["dest"]["l"]}
+            stored = None
+            changed = True
+            while changed and stored is None:
+                changed = False
+                for bj, blk in enumerate(b.blocks):
+                    if blk["cleanup"] or bj not in b.reachable:
+                        continue
+                    for st in blk["st"]:
+                        if st["k"] != "assign":
+                            continue
+                        rv = st["rv"]
+                        used = []
+                        for k in ("o", "l", "r"):
+                            q = op_place(rv[k]) if k in rv and isinstance(rv[k], dict) else None
+                            if q is not None:
+                                used.append(q["l"])
+                        if rv["k"] in ("ref", "rawptr"):
+                            used.append(rv["p"]["l"])
+                        if rv["k"] == "agg":
+                            for o in rv["ops"]:
+                                q = op_place(o)
+                                if q is not None and q["l"] in T and rv.get("ak") == "adt" and rv.get("variant") not in ("Some", "Ok", "Continue"):
+                                    stored = (bj, "built into %s" % (rv.get("variant") or rv.get("id", "a value")))
+                                if q is not None and q["l"] in T and st["p"]["l"] not in T:
+                                    T.add(st["p"]["l"])
+                                    changed = True
+                        if any(u in T for u in used) and st["p"]["l"] not in T:
+                            if st["p"]["l"] == 0 or st["p"]["p"]:
+                                stored = (bj, "stored into the result")
+                            T.add(st["p"]["l"])
+                            changed = True
+                    u = blk["term"]
+                    if u["k"] == "call" and u is not t:
+                        hit = [a for a in u["args"] if op_place(a) is not None and op_place(a)["l"] in T]
+                        if not hit:
+                            continue
+                        un = callee_name(u) or ""
+                        if TEXT_CONSUMER.search(un):
+                            continue
+                        if TEXT_IDENTITY.search(un) or LOSSY_TEXT.search(un):
+                            if u["dest"]["l"] not in T:
+                                T.add(u["dest"]["l"])
+                                changed = True
+                            if u["dest"]["l"] == 0:
+                                stored = (bj, "returned")
+                            continue
+                        # any other call receiving the transformed text keeps it (builder setter, push, constructor ...)
+                        if op_place(u["args"][0]) is not None and op_place(u["args"][0])["l"] in T and len(u["args"]) == 1:
+                            # unary helper on the text itself: result carries it on
+                            if u["dest"]["l"] not in T:
+                                T.add(u["dest"]["l"])
+                                changed = True
+                            continue
+                        stored = (bj, "passed to %s" % un.split("::")[-1])
+            if stored:
+                ctx.violation(rid, key, "%s stores a %s copy of input text (%s): the value read differs from the value written in the file, and the writer prints it back without the removed characters" % (
+                    f.short, nm.split("::")[-1], stored[1]), b.site(bi), key)
+            else:
+                ctx.ok(rid, key, "only compared / parsed")
+    ctx.count("text_transform_sites", n_sites)
+    ctx.floor(rid, "token_text_reads", n_txt, 5)
